@@ -396,3 +396,38 @@ def attrs_in_call_closure(model: Model, fi: FuncInfo, wanted: Sequence[str], dep
 
     go(fi, depth)
     return out
+
+
+CACHE_DECORATORS = {"lru_cache", "cache", "functools.lru_cache", "functools.cache", "cached_property", "functools.cached_property"}
+
+
+def memoised_functions(model: Model) -> List[Tuple[FuncInfo, str]]:
+    out = []
+    for fi in model.funcs.values():
+        for d in fi.decorators:
+            if d in CACHE_DECORATORS:
+                out.append((fi, d))
+    return out
+
+
+def returns_ast(ctx: TermCtx, fi: FuncInfo) -> bool:
+    """the function may return an ast node (constructor, parse result, or the result of a package function that does)."""
+    try:
+        rt = ctx.analysis(fi).return_term()
+    except AnalysisError:
+        return False
+    if rt is None:
+        return False
+
+    def is_ast(t) -> bool:
+        for x in subterms(t):
+            if isinstance(x, tuple) and x:
+                if x[0] == "new":
+                    return True
+                if x[0] == "app" and isinstance(x[1], tuple) and x[1][:1] == ("global",) and x[1][1] in ("ast.parse", "copy.deepcopy", "copy.copy"):
+                    return True
+                if x[0] in ("visit", "gvisit", "tvisit"):
+                    return True
+        return False
+
+    return is_ast(rt)
